@@ -44,6 +44,11 @@ THEOREMS = [
     "OllamaVerif.C08.good_writers_from_longer_file_transiently_unsafe",
     "OllamaVerif.C08.F10_chunk_holes_present_with_full_size",
     "OllamaVerif.C08.F8_relink_same_size_keeps_old",
+    "OllamaVerif.C08.resolve_hash_of_file",
+    "OllamaVerif.C08.link_then_resolve_partial",
+    "OllamaVerif.C08.link_then_resolve_fixed",
+    "OllamaVerif.C08.history_blobs_valid",
+    "OllamaVerif.C08.history_get_trusted",
 ]
 OVERLAY = {"server/internal/cache/blob/zz_verif_c08_test.go": "server_internal_cache_blob/zz_verif_c08_test.go"}
 PKG = "./server/internal/cache/blob/"
